@@ -1360,6 +1360,9 @@ func checkFrameArithmetic(p *Prog, c *Check) {
 			if spec.will == 1 {
 				wp = will
 			}
+			if spec.will == 3 {
+				wp, _ = p.willFor(spec)
+			}
 			st, why := p.buildStateSpec(tn, spec, nil, wp)
 			if st == nil {
 				if bad == "" {
@@ -1420,8 +1423,117 @@ func checkFrameArithmetic(p *Prog, c *Check) {
 // all emissions to the end of the frame for the remaining length of a packet's top-level encoder, the
 // emissions immediately after it for a property length.  With R10.3 (dry run = real run) and R10.2
 // (sizes add up) the prefix then equals the number of bytes it covers, for every packet state.
+// helperDrySum: call is h(args…) where h is a one-block mq function (not of the fill family, no stores) whose
+// single result is, through conversions and additions, a sum of dry-run calls F(x, nil-slice, 0) with x one of h's
+// own parameters.  Returns the terms as "F on <caller's key of the argument passed for x>" (the key format of
+// lengthPrefixFindings); with pr == nil only the shape is tested.
+func helperDrySum(p *Prog, pr *Prover, call *ssa.Call) ([]string, bool) {
+	h := call.Call.StaticCallee()
+	if h == nil || h.Blocks == nil || len(h.Blocks) != 1 || isFillFamily(h) || h.Pkg == nil || h.Pkg.Pkg != p.Pkg || len(h.FreeVars) != 0 {
+		return nil, false
+	}
+	ret, ok := terminator(h.Blocks[0]).(*ssa.Return)
+	if !ok || len(ret.Results) != 1 {
+		return nil, false
+	}
+	for _, ins := range h.Blocks[0].Instrs {
+		switch ins.(type) {
+		case *ssa.Store, *ssa.MapUpdate, *ssa.Send, *ssa.Go, *ssa.Defer:
+			return nil, false
+		}
+	}
+	n := 0
+	var ev func(v ssa.Value, depth int) ([]string, bool)
+	ev = func(v ssa.Value, depth int) ([]string, bool) {
+		if depth > 12 {
+			return nil, false
+		}
+		switch x := v.(type) {
+		case *ssa.Const:
+			if k, ok := constInt(x); ok && k == 0 {
+				return nil, true
+			}
+		case *ssa.Convert:
+			return ev(x.X, depth+1)
+		case *ssa.ChangeType:
+			return ev(x.X, depth+1)
+		case *ssa.BinOp:
+			if x.Op == token.ADD {
+				a, ok1 := ev(x.X, depth+1)
+				b, ok2 := ev(x.Y, depth+1)
+				return append(a, b...), ok1 && ok2
+			}
+		case *ssa.Call:
+			sc := x.Call.StaticCallee()
+			if sc == nil || !isFillFamily(sc) || sc.Signature.Recv() == nil {
+				return nil, false
+			}
+			args := x.Call.Args
+			bi := 1
+			if k := fillBufIndex(sc); k > 0 {
+				bi += k
+			}
+			if bi+1 >= len(args) || !p.isNilSliceLoad(args[bi]) {
+				return nil, false
+			}
+			if k, ok := constInt(args[bi+1]); !ok || k != 0 {
+				return nil, false
+			}
+			prm, isPrm := args[0].(*ssa.Parameter)
+			if !isPrm {
+				return nil, false
+			}
+			for i, q := range h.Params {
+				if q == prm && i < len(call.Call.Args) {
+					n++
+					key := ""
+					if pr != nil {
+						key = qname(sc) + " on " + pr.key(call.Call.Args[i])
+					}
+					return []string{key}, true
+				}
+			}
+		}
+		return nil, false
+	}
+	d, ok := ev(ret.Results[0], 0)
+	return d, ok && n > 0
+}
+
 func lengthPrefixFindings(p *Prog, topLevel map[*ssa.Function]bool) []guardFinding {
 	var out []guardFinding
+	// a packet encoder that hands the whole frame to a helper of the fill family (`return fillAck(b, i, …)`): the
+	// helper is the packet encoder as far as this rule is concerned
+	top := map[*ssa.Function]bool{}
+	for f := range topLevel {
+		top[f] = true
+	}
+	delegates := map[*ssa.Function]*ssa.Function{}
+	for changed := true; changed; {
+		changed = false
+		for f := range top {
+			if delegates[f] != nil {
+				continue
+			}
+			_, _, ems, _ := emissionsOf(p, f)
+			if len(ems) != 1 {
+				continue
+			}
+			sc := ems[0].call.Call.StaticCallee()
+			if sc == nil || sc.Blocks == nil || !isFillFamily(sc) || sc.Pkg == nil || sc.Pkg.Pkg != p.Pkg || sc == f {
+				continue
+			}
+			if buf, _, _, _ := emissionsOf(p, sc); buf == nil || writesBufferDirectly(sc, buf) {
+				continue
+			}
+			delegates[f] = sc
+			if !top[sc] {
+				top[sc] = true
+				changed = true
+			}
+		}
+	}
+	topLevel = top
 	for _, fn := range p.AllFuncs() {
 		if !isFillFamily(fn) || fn.Synthetic != "" {
 			continue
@@ -1433,6 +1545,10 @@ func lengthPrefixFindings(p *Prog, topLevel map[*ssa.Function]bool) []guardFindi
 		topUndecided := func() {
 			cons := qname(fn) + "#length-prefixes"
 			pos := p.Pos(fn.Pos())
+			if d := delegates[fn]; d != nil {
+				out = append(out, guardFinding{cons: cons, pos: pos, ok: true, how: "the whole frame is emitted by " + qname(d) + ", which carries the remaining-length obligation"})
+				return
+			}
 			if len(ems) == 2 {
 				if len(ems[1].call.Call.Args) > 0 {
 					if k, isC := constInt(stripConvs(ems[1].call.Call.Args[0])); isC && k == 0 {
@@ -1454,10 +1570,10 @@ func lengthPrefixFindings(p *Prog, topLevel map[*ssa.Function]bool) []guardFindi
 			}
 			out = append(out, guardFinding{cons: cons, pos: pos, unk: true, how: "the remaining length of this packet encoder (" + what + ") is not computed from dry runs of what is emitted after it inside the encoder: that it equals the bytes that follow is not decided for all packet states"})
 		}
-		if buf == nil || len(ems) == 0 || len(dry) == 0 {
-			if topLevel[fn] && buf != nil && len(ems) > 0 {
-				topUndecided()
-			}
+		if buf == nil || len(ems) == 0 {
+			continue
+		}
+		if len(dry) == 0 && !topLevel[fn] {
 			continue
 		}
 		isDry := map[*ssa.Call]bool{}
@@ -1473,7 +1589,11 @@ func lengthPrefixFindings(p *Prog, topLevel map[*ssa.Function]bool) []guardFindi
 			seen[v] = true
 			switch x := v.(type) {
 			case *ssa.Call:
-				return isDry[x]
+				if isDry[x] {
+					return true
+				}
+				_, ok := helperDrySum(p, nil, x)
+				return ok
 			case *ssa.Convert:
 				return dependsOnDry(x.X, seen)
 			case *ssa.ChangeType:
@@ -1581,6 +1701,11 @@ func lengthPrefixFindings(p *Prog, topLevel map[*ssa.Function]bool) []guardFindi
 					return nil, false
 				case *ssa.Call:
 					if !isDry[x] {
+						// a one-block helper that returns a sum of dry runs on what it is given (remainingLen()):
+						// its terms, expressed in this function's values
+						if d, ok := helperDrySum(p, pr, x); ok {
+							return d, true
+						}
 						return nil, false
 					}
 					// must be a real dry run: nil-slice buffer, offset 0
